@@ -60,7 +60,7 @@ def main(ck):
                               "Go harness cmd/c09 + internal/tsdrv, python driver props/C09/run.py",
                               "engine/verif_export_c02.go, engine/verif_export_c09.go (thin wrappers)"]
     ck.coq_audit(["C09"])
-    ok = ck.coq_build(["C09/Corr.vo", "C09/Proofs.vo"])
+    ok = ck.coq_build(["C09/Corr.vo", "C09/Proofs.vo", "C09/ListSpec.vo", "C09/ChunkProofs.vo", "C09/BucketProofs.vo"])
     if ok:
         ck.coq_props(["C09/Props.v", "C09/Refuted.v"])
     binp = ck.go_build("./cmd/c09", "c09")
